@@ -130,7 +130,7 @@ def main(argv=None):
         ev["coverage"].update(mod.extra_evidence(recs, cases))
     if reasons:
         ev["coverage"]["inconclusive_reasons"] = reasons
-    if not a.replay and a.only is None:
+    if not a.replay and a.only is None and not os.environ.get("VERIF_NO_EVIDENCE"):
         os.makedirs(os.path.join(VERIF, "evidence"), exist_ok=True)
         with open(os.path.join(VERIF, "evidence", f"{pid}.json"), "w") as f:
             json.dump(pool.jsonable(ev), f, indent=1)
@@ -140,10 +140,11 @@ def main(argv=None):
     print(f"[{pid}] tier={a.tier} seed={seed} cases={len(cases)} status={dict(status)} distinct_nontrivial={len(digests)} "
           f"monitors={dict(counters)} known_hits={dict(known_hits)} wall={wall}s")
     if violations:
-        os.makedirs(os.path.join(VERIF, "replays"), exist_ok=True)
+        rdir = os.environ.get("VERIF_REPLAY_DIR") or os.path.join(VERIF, "replays")
+        os.makedirs(rdir, exist_ok=True)
         shown = set()
         for i, case, v in violations[:5]:
-            path = os.path.join(VERIF, "replays", f"{pid}-{seed}-{i}.json")
+            path = os.path.join(rdir, f"{pid}-{seed}-{i}.json")
             if path not in shown:
                 with open(path, "w") as f:
                     json.dump(pool.jsonable({"property": pid, "tier": a.tier, "seed": seed, "case_index": i, "case": case,
